@@ -3,6 +3,7 @@
 //! Exit codes: 0 = ran to completion (verdicts are in the output files; the `check` driver decides),
 //! 2 = tool error. This binary never prints VIOLATION lines itself.
 
+mod codec;
 mod conc;
 mod disk;
 mod gate;
@@ -219,6 +220,34 @@ fn mem_conc(args: &[String]) {
     let (runs, events) = conc::run(&cfg, &prm, seed, &mut w).unwrap_or_else(|e| die(e));
     w.flush().unwrap_or_else(|e| die(format!("flush: {e}")));
     println!("{}", json!({"runs": runs, "events": events}));
+}
+
+/// C08: type round trips and flusher-buffer batches; `--batches` = file of {"hcfg": {...}, "pads": [...]} lines
+fn codec_run(args: &[String]) {
+    let cfg = load_cfg(args);
+    let trace_path = arg(args, "--trace").unwrap_or_else(|| die("--trace missing"));
+    let seed: u64 = arg(args, "--seed").and_then(|s| s.parse().ok()).unwrap_or(1);
+    let per_type: usize = arg(args, "--random-per-type").and_then(|s| s.parse().ok()).unwrap_or(8);
+    let mut w = std::io::BufWriter::new(std::fs::File::create(&trace_path).unwrap_or_else(|e| die(format!("{trace_path}: {e}"))));
+    let evs = codec::type_cases(seed, per_type);
+    let mut events = evs.len();
+    codec::write_events(&mut w, &evs, 0).unwrap_or_else(|e| die(format!("write: {e}")));
+    let mut batches = 0;
+    if let Some(bpath) = arg(args, "--batches") {
+        let text = std::fs::read_to_string(&bpath).unwrap_or_else(|e| die(format!("{bpath}: {e}")));
+        for (i, line) in text.lines().filter(|l| !l.trim().is_empty()).enumerate() {
+            let b: J = serde_json::from_str(line).unwrap_or_else(|e| die(format!("batch {i}: {e}")));
+            let hcfg: hybrid::HybridCfg = serde_json::from_value(b["hcfg"].clone()).unwrap_or_else(|e| die(format!("batch {i}: {e}")));
+            let pads: Vec<usize> = b["pads"].as_array().unwrap_or_else(|| die("batch without pads")).iter().filter_map(|x| x.as_u64()).map(|x| x as usize).collect();
+            let compressed = !hcfg.compression.is_empty() && hcfg.compression != "none";
+            let ev = codec::batch_case(&cfg, &hcfg, &pads, compressed).unwrap_or_else(|e| die(format!("batch {i}: {e}")));
+            codec::write_events(&mut w, &[ev], i + 1).unwrap_or_else(|e| die(format!("write: {e}")));
+            events += 1;
+            batches += 1;
+        }
+    }
+    w.flush().unwrap_or_else(|e| die(format!("flush: {e}")));
+    println!("{}", json!({"events": events, "batches": batches}));
 }
 
 fn load_cfg(args: &[String]) -> mem::MemCfg {
@@ -454,6 +483,7 @@ fn main() {
         Some("hybrid-replay") => hybrid_replay(&args[2..]),
         Some("disk-run") => disk_run(&args[2..]),
         Some("mem-conc") => mem_conc(&args[2..]),
+        Some("codec-run") => codec_run(&args[2..]),
         _ => die("usage: harness <mem-replay> ..."),
     }
 }
